@@ -100,6 +100,7 @@ RAISE = {
     'KE': lambda who: KeyError(f'boom {who}'),
     'RT': lambda who: RuntimeError(f'boom {who}'),
     'ITO': lambda who: TimeoutError(f'inner timeout {who}'),
+    'chain': lambda who: ValueError(f'boom {who}'),  # (sync handlers: built below)
     'CE': lambda who: RuntimeError(f'boom {who}'),  # sync handlers cannot await a cancelled future: plain error  # sync handlers: plain TimeoutError
 }
 
@@ -459,6 +460,13 @@ def make_handler(w: World, hi: int, hspec: dict):
                         except TimeoutError as ex:
                             w.raised[me] = ex
                             raise
+                    if op[1] == 'chain':
+                        try:
+                            raise KeyError(f'inner {list(me)}')
+                        except KeyError as inner:
+                            ex = ValueError(f'boom (chained) {list(me)}')
+                            w.raised[me] = ex
+                            raise ex from inner
                     if op[1] == 'CE':
                         # the handler awaits something that was cancelled (a background task, a future): CancelledError
                         # comes out of the handler although nobody cancelled the handler itself
@@ -511,6 +519,13 @@ def make_handler(w: World, hi: int, hspec: dict):
                 if k == 'disp':
                     do_dispatch(ev, me, op, [])
                 elif k == 'raise':
+                    if op[1] == 'chain':
+                        try:
+                            raise KeyError(f'inner {list(me)}')
+                        except KeyError as inner:
+                            ex = ValueError(f'boom (chained) {list(me)}')
+                            w.raised[me] = ex
+                            raise ex from inner
                     ex = RAISE[op[1]](list(me))
                     w.raised[me] = ex
                     raise ex
@@ -529,7 +544,24 @@ def make_handler(w: World, hi: int, hspec: dict):
             w.running.pop(me, None)
             w.rec('exit', bus=bus, ev=ev.tag, h=hi, how=how)
 
-    is_async = kind in ('async', 'amethod', 'acmethod')
+    is_async = kind in ('async', 'amethod', 'acmethod', 'abusmeth')
+    if kind in ('busmeth', 'abusmeth'):
+        # a bound method of an EventBus instance that is NOT dispatch (applications subclass the bus and register its own methods)
+        import types
+
+        if kind == 'abusmeth':
+
+            async def bm(self_bus, event):
+                return await run_async(event)
+        else:
+
+            def bm(self_bus, event):
+                return run_sync(event)
+
+        bm.__name__ = hname
+        bm.__qualname__ = hname
+        owner = w.buses[hspec.get('owner', hspec['bus']) % len(w.buses)]
+        return types.MethodType(bm, owner)
     if kind in ('async', 'sync', 'smethod'):
         if is_async:
 
